@@ -67,6 +67,7 @@ impl FromStr for Signature {
     type Err = anyhow::Error;
 
     fn from_str(s: &str) -> Result<Self, Self::Err> {
+        let s = s.strip_prefix("0x").unwrap_or(s);
         let mut signature = [0; 65];
         hex::decode_to_slice(s, &mut signature)?;
 
